@@ -180,7 +180,8 @@ func K4() *Entry {
 
 // K5: message matrix (nullable x cardinality, depth 3, empty messages).
 func K5() *Entry {
-	leaf := M("Leaf", F("Name"), F("Count", Sc(ir.Int64)), F("Tags", Rep()), F("Labels", MapOf()))
+	// (fields named like those of a map entry, next to a map)
+	leaf := M("Leaf", F("Name"), F("Count", Sc(ir.Int64)), F("Tags", Rep()), F("Labels", MapOf()), F("key"), F("value", Sc(ir.Int64)))
 	mid := M("Mid", F("Title"), F("One", MsgT("Leaf"), NonNull()), F("Maybe", MsgT("Leaf")), F("Many", MsgT("Leaf"), Rep(), NonNull()),
 		F("ManyMaybe", MsgT("Leaf"), Rep()), F("Dict", MsgT("Leaf"), MapOf(), NonNull()), F("DictMaybe", MsgT("Leaf"), MapOf()), F("Nothing", MsgT("Void")))
 	top := M("Top", F("Id", JSON("id")), F("One", MsgT("Mid"), NonNull()), F("Maybe", MsgT("Mid")), F("Many", MsgT("Mid"), Rep(), NonNull()),
@@ -223,6 +224,18 @@ func K6(variant int) *Entry {
 		c := BaseConfig("Marked")
 		c.Sort, c.SortSet = false, true
 		return &Entry{Name: "k6d", File: f, Cfg: c, Tags: []string{"embed", "embed?", "embedded-empty-msg", "sort-off"}}
+	case 5:
+		// a by-value embed inside a nullable embed (and the other way round): scalar children only
+		inner := M("InnerPart", F("InnerLabel"), F("InnerCount", Sc(ir.Int64)), F("InnerWhen", TS(), NonNull()))
+		outer := M("OuterPart", F("OuterLabel"), F("InnerPart", MsgT("InnerPart"), NonNull(), Embed()), F("OuterFlag", Sc(ir.Bool)))
+		deep := M("DeepPart", F("DeepLabel"), F("DeepRatio", Sc(ir.Double)))
+		wrap := M("WrapPart", F("WrapLabel"), F("DeepPart", MsgT("DeepPart"), Embed()))
+		holder := M("Nest", F("Title"), F("OuterPart", MsgT("OuterPart"), Embed()), F("WrapPart", MsgT("WrapPart"), NonNull(), Embed()), F("Count", Sc(ir.Int32)),
+			F("Sub", MsgT("NestSub")), F("Subs", MsgT("NestSub"), Rep()))
+		sub := M("NestSub", F("SubLabel"), F("OuterPart", MsgT("OuterPart"), Embed()))
+		f := file("k6f", holder, outer, inner, deep, wrap, sub)
+		AutoComments(f)
+		return &Entry{Name: "k6f", File: f, Cfg: BaseConfig("Nest"), Tags: []string{"embed", "embed?", "embed-in-embed"}}
 	case 4:
 		// excluded children of embedded messages (nullable and by value): the struct fields exist, the schema does not describe them
 		meta := M("Meta", F("MetaName"), F("Revision", Sc(ir.Int64)), F("Internal"), F("HiddenBlob", Sc(ir.Bytes)), F("When", TS(), Null()))
@@ -552,7 +565,7 @@ func K15() *Entry {
 // Curated returns the curated corpus. known=true adds the isolated shapes that
 // are known not to compile on the pinned tree (D1, D2).
 func Curated() []*Entry {
-	return []*Entry{K1(), K2(), K3(), K4(), K5(), K6(0), K6(1), K6(2), K6(3), K6(4), K7(), K7X(), K8(), K9(), K10(false), K10(true), K12(), K13(), K14(), K15()}
+	return []*Entry{K1(), K2(), K3(), K4(), K5(), K6(0), K6(1), K6(2), K6(3), K6(4), K6(5), K7(), K7X(), K8(), K9(), K10(false), K10(true), K12(), K13(), K14(), K15()}
 }
 
 // Exotic returns the isolated shapes (K11).
